@@ -7,6 +7,8 @@
 (*   {"ev":"reset","n":N,"id":i}                                           *)
 (*   {"ev":"pick","c":c,"t":ms,"infl":[..],"succ":[..],"lag":[..]}         *)
 (*   {"ev":"done","c":c,"code":"Unavailable","lat":us,"t":ms, ...same}     *)
+(*   {"ev":"dbegin","c":c,"t":ms, ...}  a completion began (in-flight decremented, time t read) *)
+(*   {"ev":"dend","c":c,"code":..,"lat":us,"t":ms (the time read at dbegin), ...} its update applied *)
 (*   {"ev":"state","t":ms,"picks":[..],"dones":[..],"lmin":[..],"lmax":[..],"seen":[..], ...same} *)
 (* infl/succ/lag are the projection of every ready connection read after   *)
 (* the operation (c = 0: the pick returned something that is not a ready   *)
@@ -48,12 +50,17 @@ PickWhy(e) ==
 
 DoneWhy(e) ==
   LET c == e.c
-      f == DoneFails(c, e.code, e.lat, e.t, e.succ[c], e.lag[c]) IN
+      f == DoneFails(c, e.code, e.lat, e.t, e.succ[c], e.lag[c], e.ev = "dend") IN
   IF c \notin ready THEN f
   ELSE IF e.code \notin AllCodes THEN {"unknown-code"}
   ELSE IF f # {} THEN f
-  ELSE LET p == DonePost(c, e.code, e.lat, e.t, e.succ[c], e.lag[c])
+  ELSE LET p == DonePost(c, e.code, e.lat, e.t, e.succ[c], e.lag[c], e.ev = "dend")
        IN IF ProjOK(e, p.infl, p.succ, p.lag) THEN {} ELSE {"done-effect"}
+
+BeginWhy(e) ==
+  LET c == e.c IN
+  IF BeginFails(c, e.t) # {} THEN BeginFails(c, e.t)
+  ELSE IF ProjOK(e, BeginPost(c).infl, succ, lag) THEN {} ELSE {"done-effect"}
 
 \* quiescent state after a concurrent run, judged by the invariants of P2C.tla on the logged state
 StateWhy(e) ==
@@ -78,7 +85,7 @@ TReset(e) ==
   /\ succ' = [c \in Conns |-> InitSuccess]
   /\ lag' = Zero /\ lmin' = Zero /\ lmax' = Zero
   /\ lastPick' = [c \in Conns |-> -1] /\ lastDone' = [c \in Conns |-> -1]
-  /\ prevPick' = -1 /\ badrun' = Zero /\ goodrun' = Zero /\ failrun' = Zero
+  /\ prevPick' = -1 /\ badrun' = Zero /\ goodrun' = Zero /\ failrun' = Zero /\ half' = Zero /\ ended' = Zero
   /\ out' = [op |-> "init"]
   /\ skip' = FALSE
 
@@ -92,6 +99,12 @@ TStep ==
     [] e.ev = "done" /\ ~skip ->
          LET why == DoneWhy(e) IN
          IF why = {} THEN Done(e.c, e.code, e.lat, e.t, e.succ[e.c], e.lag[e.c]) /\ UNCHANGED skip ELSE Reject(why)
+    [] e.ev = "dbegin" /\ ~skip ->
+         LET why == BeginWhy(e) IN
+         IF why = {} THEN DoneBegin(e.c, e.t) /\ UNCHANGED skip ELSE Reject(why)
+    [] e.ev = "dend" /\ ~skip ->
+         LET why == DoneWhy(e) IN
+         IF why = {} THEN DoneEnd(e.c, e.code, e.lat, e.t, e.succ[e.c], e.lag[e.c]) /\ UNCHANGED skip ELSE Reject(why)
     [] e.ev = "state" /\ ~skip ->
          LET why == StateWhy(e) IN
          IF why = {} THEN UNCHANGED <<vars, skip>> ELSE Reject(why)
